@@ -38,10 +38,23 @@ def c12_2(ctx, r):
 @rule(P, "C12.3", "T1+T13", "a failed hand-off is never an active batch", min_obligations=4)
 def c12_3(ctx, r):
     fn = ctx.fn("AsyncHpcSubmitter.run", "C12.3")
+    cfg = ctx.cfg(fn)
+    # roles: (JID, RES) = HpcManager.submit(...)
+    JID = RES = None
+    for n in cfg.nodes:
+        if n.kind == "stmt" and isinstance(n.ast, ast.Assign) and isinstance(n.ast.targets[0], ast.Tuple) and isinstance(n.ast.value, ast.Call):
+            s = ctx.cg.site_of(fn, n.ast.value)
+            el = n.ast.targets[0].elts
+            if s is not None and s.calls_short(ctx.ix, "HpcManager.submit") and len(el) == 2 and all(isinstance(e, ast.Name) for e in el):
+                JID, RES = el[0].id, el[1].id
+    r.check(RES is not None, "(job id, result) = HpcManager.submit(...)", key_of(fn, "unpack order"), fn.loc(), "the result of HpcManager.submit is not unpacked into two locals")
+    if RES is None:
+        return
+    good = f"{RES}==Status.GOOD"
     goods = errs = 0
     for ret, conds, path in return_conditions(ctx, fn):
         txt = ctx.src(ret) if ret is not None else "None"
-        mgr_good = any(p and f.replace(" ", "") == "result==Status.GOOD" for f, p in conds)
+        mgr_good = any(p and f.replace(" ", "") == good for f, p in conds)
         if txt == "Status.GOOD":
             goods += 1
             r.check(mgr_good, "run() returns GOOD only if the manager's submit returned GOOD", key_of(fn, "GOOD without scheduler GOOD"), fn.loc(ret),
@@ -52,21 +65,36 @@ def c12_3(ctx, r):
             r.check(txt == "Status.ERROR" and not mgr_good, "the failure path returns ERROR", key_of(fn, f"returns {txt}"), fn.loc(ret) if ret is not None else fn.loc(), f"run() returns {txt} on a path where submit {'succeeded' if mgr_good else 'failed'}")
     if not goods or not errs:
         raise AnalysisError("C12.3", f"expected both outcomes of AsyncHpcSubmitter.run (GOOD x{goods}, ERROR x{errs})")
-    # `result` is the second element returned by HpcManager.submit
-    cfg = ctx.cfg(fn)
-    ok = False
-    for n in cfg.nodes:
-        if n.kind == "stmt" and isinstance(n.ast, ast.Assign) and isinstance(n.ast.targets[0], ast.Tuple) and isinstance(n.ast.value, ast.Call):
-            s = ctx.cg.site_of(fn, n.ast.value)
-            if s is not None and s.calls_short(ctx.ix, "HpcManager.submit") and [ctx.src(e) for e in n.ast.targets[0].elts] == ["job_id", "result"]:
-                ok = True
-    r.check(ok, "(job_id, result) = HpcManager.submit(...)", key_of(fn, "unpack order"), fn.loc(), "the result of HpcManager.submit is not unpacked as (job_id, result)")
+    # HpcManager.submit: (R, J, _) = intf.submit(file); the hand-off path returns (J, R)
     hm = ctx.fn("HpcManager.submit", "C12.3")
-    rets = [n for n in iter_own(hm.node) if isinstance(n, ast.Return)]
-    okh = all(isinstance(x.value, ast.Tuple) and len(x.value.elts) == 2 for x in rets) and any(ctx.src(x.value) == "(job_id, result)" for x in rets)
-    r.check(okh, "HpcManager.submit returns (job_id, result)", key_of(hm, "return order"), hm.loc(), "HpcManager.submit's return shape changed")
     unp = [n for n in iter_own(hm.node) if isinstance(n, ast.Assign) and isinstance(n.targets[0], ast.Tuple) and isinstance(n.value, ast.Call) and "HANDOFF" in ctx.site_effects(ctx.cg.site_of(hm, n.value))]
-    r.check(len(unp) == 1 and [ctx.src(e) for e in unp[0].targets[0].elts][:2] == ["result", "job_id"], "(result, job_id, err) = intf.submit(filename)", key_of(hm, "interface unpack"), hm.loc(), "the interface's (result, job_id, err) triple is unpacked differently")
+    oku = len(unp) == 1 and len(unp[0].targets[0].elts) == 3 and all(isinstance(e, ast.Name) for e in unp[0].targets[0].elts)
+    r.check(oku, "(result, job_id, err) = intf.submit(filename)", key_of(hm, "interface unpack"), hm.loc(), "the interface's (result, job_id, err) triple is unpacked differently")
+    if oku:
+        R, J = unp[0].targets[0].elts[0].id, unp[0].targets[0].elts[1].id
+        rets = [n for n in iter_own(hm.node) if isinstance(n, ast.Return)]
+        okh = all(isinstance(x.value, ast.Tuple) and len(x.value.elts) == 2 for x in rets) and any(ctx.src(x.value).replace(" ", "") == f"({J},{R})" for x in rets)
+        r.check(okh, "HpcManager.submit returns (job id, result)", key_of(hm, "return order"), hm.loc(), f"HpcManager.submit does not return ({J}, {R}) - the pair the caller unpacks as (job id, result)")
+        sub = ctx.ix.find_func("SlurmManager.submit")
+        rs = [n for n in iter_own(sub.node) if isinstance(n, ast.Return)]
+        r.check(len(rs) == 1 and isinstance(rs[0].value, ast.Tuple) and len(rs[0].value.elts) == 3, "the interface returns a triple", key_of(sub, "triple"), sub.loc(), "SlurmManager.submit no longer returns (result, job_id, err)")
+    # the round's own consistency assert compares placed jobs with counted jobs: the count is taken per batch built, whether
+    # or not the scheduler accepted it (a count conditional on acceptance makes the assert fail exactly when an sbatch fails -
+    # inside the marked region, so the marker stays and no later round can report the jobs missing)
+    sbs = ctx.fn("HpcSubmitter._submit_batches", "C12.3")
+    cfgb = ctx.cfg(sbs)
+    for s3 in ctx.some_sites(sbs, "C12.3", short="HpcSubmitter._submit_batch"):
+        for n3 in ctx.nodes_of(sbs, s3.node):
+            g_call = {(f, p) for f, p in guard_forms(ctx, sbs, n3)}
+            incs = [x for x in cfgb.nodes if x.kind == "stmt" and isinstance(x.ast, ast.AugAssign) and isinstance(x.ast.op, ast.Add) and "num_jobs" in ctx.src(x.ast.value)]
+            if not incs:
+                raise AnalysisError("C12.3", "_submit_batches: the per-batch job count was not recognised")
+            for x in incs:
+                extra = sorted(("" if p else "not ") + f for f, p in ({(f, p) for f, p in guard_forms(ctx, sbs, x)} - g_call))
+                r.check(not extra, "the jobs of every constructed batch are counted, accepted by the scheduler or not", key_of(sbs, f"batch jobs counted only under {extra}"), sbs.loc(x.ast),
+                        f"`{ctx.src(x.ast)}` is additionally guarded by {extra}: when an sbatch fails the count no longer matches the placed jobs and the round's own assert raises inside the marked region - "
+                        "submitter.lock stays, every later try-submit-jobs refuses, the submission never completes and the affected jobs are never reported missing",
+                        "If a batch fails to submit ... the affected jobs are reported as missing ... The submission still reaches completion")
     # the queue records only GOOD entries (C06.4)
     from .c06 import c06_4
 
@@ -75,8 +103,8 @@ def c12_3(ctx, r):
     ids = [n for n in cfg.nodes if n.kind == "stmt" and isinstance(n.ast, ast.Assign) and ctx.src(n.ast.targets[0]) == "self._job_id"]
     for n in ids:
         forms = guard_forms(ctx, fn, n)
-        r.check(any((not p) and f.replace(" ", "") == "result==Status.GOOD" for f, p in forms) is False and any(p and f.replace(" ", "") == "result==Status.GOOD" for f, p in forms), "the scheduler id is stored only after a GOOD hand-off", key_of(fn, "job id store"), fn.loc(n.ast),
-                "self._job_id is assigned on the failure path")
+        r.check(any(p and f.replace(" ", "") == good for f, p in forms) and ctx.src(n.ast.value) == JID, "the scheduler id is stored only after a GOOD hand-off", key_of(fn, "job id store"), fn.loc(n.ast),
+                "self._job_id is assigned on the failure path (or from another value than the id the manager returned)")
 
 
 @rule(P, "C12.4", "T6+T8", "no fabricated result: Result is constructed only from a real exit status, by the cancel sites, or from a stored row", min_obligations=6)
